@@ -983,13 +983,8 @@ static ares_status_t ares_dns_write_rr(const ares_dns_record_t *dnsrec,
       return status; /* LCOV_EXCL_LINE: OutOfMemory */
     }
 
-    /* TTL */
-    ttl = ares_dns_rr_get_ttl(rr);
-    if (rr->parent->ttl_decrement > ttl) {
-      ttl = 0;
-    } else {
-      ttl -= rr->parent->ttl_decrement;
-    }
+    /* TTL, already reduced by the record's ttl_decrement if there is one */
+    ttl    = ares_dns_rr_get_ttl(rr);
     status = ares_buf_append_be32(buf, ttl);
     if (status != ARES_SUCCESS) {
       return status; /* LCOV_EXCL_LINE: OutOfMemory */
